@@ -233,4 +233,1292 @@ theorem eqMConserv {env : Env} (hn : env.noMethods = true) (ha : env.flagsAgree 
     cases mapLookup k ys <;> simp only []
     rw [(ih v (by simp <;> omega)).field, (ih xs' (by simp <;> omega)).entries]
 
+/-! ## Conservativity 3: `CompareM = Compare`, `HashM = Hash` -/
+
+structure CmpMConserv (env : Env) (x : Val) : Prop where
+  top : ∀ T y, CompareM.top env T x y = Compare.top env T x y
+  field : ∀ F y, CompareM.field env F x y = Compare.field env F x y
+  fields : ∀ fs ys, CompareM.fields env fs x ys = Compare.fields env fs x ys
+  elems : ∀ E ys, CompareM.elems env E x ys = Compare.elems env E x ys
+  entries : ∀ V ys, CompareM.entries env V x ys = Compare.entries env V x ys
+
+theorem cmpMConserv {env : Env} (hn : env.noMethods = true) (x : Val) : CmpMConserv env x := by
+  induction x using Val.strongInduction with
+  | step x ih =>
+  have hm := Env.cmpM?_none hn
+  have htop : ∀ T y, CompareM.top env T x y = Compare.top env T x y := by
+    intro T y
+    rw [CompareM.top.eq_def, Compare.top.eq_def]
+    simp only [hm]
+    cases hU : env.under T <;> simp only []
+    case ptr R =>
+      match_both
+      cases hR : env.under R <;> simp only []
+      case struct fs =>
+        split
+        · match_both
+          (refine (ih _ ?_).fields _ _; simp <;> omega)
+        · rfl
+      all_goals (refine (ih _ ?_).top _ _; simp <;> omega)
+    case struct fs =>
+      split
+      · match_both
+        (refine (ih _ ?_).fields _ _; simp <;> omega)
+      · rfl
+    case slice E =>
+      match_both
+      split <;> (try rfl)
+      (refine (ih _ ?_).elems _ _; simp <;> omega)
+    case array n E =>
+      match_both
+      (refine (ih _ ?_).elems _ _; simp <;> omega)
+    case map K V =>
+      match_both
+      split <;> (try rfl)
+      (refine (ih _ ?_).entries _ _; simp [sizeOf_sortEntries] <;> omega)
+  refine ⟨htop, ?_, ?_, ?_, ?_⟩
+  · intro F y
+    rw [CompareM.field.eq_def, Compare.field.eq_def]
+    simp only [hm]
+    cases hU : env.under F <;> simp only [htop]
+  · intro fs ys
+    rw [CompareM.fields.eq_def, Compare.fields.eq_def]
+    match_both
+    rw [(ih _ (by simp <;> omega)).field, (ih _ (by simp <;> omega)).fields]
+  · intro fs ys
+    rw [CompareM.elems.eq_def, Compare.elems.eq_def]
+    match_both
+    rw [(ih _ (by simp <;> omega)).field, (ih _ (by simp <;> omega)).elems]
+  · intro fs ys
+    rw [CompareM.entries.eq_def, Compare.entries.eq_def]
+    match_both
+    rw [(ih _ (by simp <;> omega)).field, (ih _ (by simp <;> omega)).entries]
+
+structure HashMConserv (env : Env) (x : Val) : Prop where
+  top : ∀ T, HashM.top env T x = Hash.top env T x
+  field : ∀ F, HashM.field env F x = Hash.field env F x
+  fields : ∀ skip fs h, HashM.fields env skip fs x h = Hash.fields env skip fs x h
+  elems : ∀ E h, HashM.elems env E x h = Hash.elems env E x h
+  entries : ∀ K V h, HashM.entries env K V x h = Hash.entries env K V x h
+
+theorem hashMConserv {env : Env} (hn : env.noMethods = true) (x : Val) : HashMConserv env x := by
+  induction x using Val.strongInduction with
+  | step x ih =>
+  have hm := Env.hashM?_none hn
+  have htop : ∀ T, HashM.top env T x = Hash.top env T x := by
+    intro T
+    rw [HashM.top.eq_def, Hash.top.eq_def]
+    simp only [hm]
+    cases hU : env.under T <;> simp only []
+    case ptr R =>
+      match_both
+      cases hR : env.under R <;> simp only []
+      case struct fs =>
+        split
+        · match_both
+          split
+          · rfl
+          · (refine (ih _ ?_).fields _ _ _; simp <;> omega)
+        · rw [(ih _ (by simp <;> omega)).field]
+      all_goals rw [(ih _ (by simp <;> omega)).field]
+    case struct fs =>
+      match_both
+      split
+      · rfl
+      · (refine (ih _ ?_).fields _ _ _; simp <;> omega)
+    case slice E =>
+      match_both
+      (refine (ih _ ?_).elems _ _; simp <;> omega)
+    case array n E =>
+      match_both
+      (refine (ih _ ?_).elems _ _; simp <;> omega)
+    case map K V =>
+      match_both
+      (refine (ih _ ?_).entries _ _ _; simp [sizeOf_sortEntries] <;> omega)
+  refine ⟨htop, ?_, ?_, ?_, ?_⟩
+  · intro F
+    rw [HashM.field.eq_def, Hash.field.eq_def]
+    simp only [hm]
+    cases hU : env.under F <;> simp only [htop]
+  · intro skip fs h
+    rw [HashM.fields.eq_def, Hash.fields.eq_def]
+    match_both
+    split
+    · (refine (ih _ ?_).fields _ _ _; simp <;> omega)
+    · rw [(ih _ (by simp <;> omega)).field]
+      congr 1; funext c
+      (refine (ih _ ?_).fields _ _ _; simp <;> omega)
+  · intro E h
+    rw [HashM.elems.eq_def, Hash.elems.eq_def]
+    match_both
+    rw [(ih _ (by simp <;> omega)).field]
+    congr 1; funext c
+    (refine (ih _ ?_).elems _ _; simp <;> omega)
+  · intro K V h
+    rw [HashM.entries.eq_def, Hash.entries.eq_def]
+    match_both
+    rw [(ih _ (by simp <;> omega)).field]
+    congr 1; funext ck
+    rw [(ih _ (by simp <;> omega)).field]
+    congr 1; funext cv
+    (refine (ih _ ?_).entries _ _ _; simp <;> omega)
+
+section SpecM
+open Spec
+
+/-! ## Shape of `structEqM` / `structEqTopM` once the method and the underlying type are known -/
+
+theorem beq_ok_true (b : Bool) : ((Res.ok b : Res Bool) == Res.ok true) = b := by
+  cases b <;> decide
+
+theorem structEqM_method {env : Env} {T : Ty} {u : UserFn} (hM : env.eqM? T = some u) (x y : Val) :
+    structEqM env T x y = (userEqVal x y == .ok true) := by
+  rw [structEqM.eq_def]; simp only [hM]
+
+theorem structEqM_basic {env : Env} {T : Ty} {b : Basic} (hM : env.eqM? T = none)
+    (hU : env.under T = .basic b) (x y : Val) : structEqM env T x y = leafEq x y := by
+  rw [structEqM.eq_def]; simp only [hM, hU]
+
+theorem structEqM_ptr {env : Env} {T R : Ty} (hM : env.eqM? T = none) (hU : env.under T = .ptr R)
+    (x y : Val) :
+    structEqM env T x y =
+      match x, y with
+      | .nilv, .nilv => true
+      | .ptr _ a, .ptr _ b => structEqM env R a b
+      | _, _ => false := by
+  rw [structEqM.eq_def]; simp only [hM, hU]
+  cases x <;> cases y <;> rfl
+
+theorem structEqM_slice {env : Env} {T E : Ty} (hM : env.eqM? T = none) (hU : env.under T = .slice E)
+    (x y : Val) :
+    structEqM env T x y =
+      match x, y with
+      | .nilv, .nilv => true
+      | .slice _ _ xs, .slice _ _ ys => seqEqM env E xs ys
+      | _, _ => false := by
+  rw [structEqM.eq_def]; simp only [hM, hU]
+  cases x <;> cases y <;> rfl
+
+theorem structEqM_array {env : Env} {T E : Ty} {n : Nat} (hM : env.eqM? T = none)
+    (hU : env.under T = .array n E) (x y : Val) :
+    structEqM env T x y =
+      match x, y with
+      | .arr xs, .arr ys => seqEqM env E xs ys
+      | _, _ => false := by
+  rw [structEqM.eq_def]; simp only [hM, hU]
+  cases x <;> cases y <;> rfl
+
+theorem structEqM_struct {env : Env} {T fs : Ty} (hM : env.eqM? T = none)
+    (hU : env.under T = .struct fs) (x y : Val) :
+    structEqM env T x y =
+      match x, y with
+      | .struct xs, .struct ys => fieldsEqM env fs xs ys
+      | _, _ => false := by
+  rw [structEqM.eq_def]; simp only [hM, hU]
+  cases x <;> cases y <;> rfl
+
+theorem structEqM_map {env : Env} {T K V : Ty} (hM : env.eqM? T = none)
+    (hU : env.under T = .map K V) (x y : Val) :
+    structEqM env T x y =
+      match x, y with
+      | .nilv, .nilv => true
+      | .map _ xs, .map _ ys => xs.slen == ys.slen && entriesInM env K V xs ys
+      | _, _ => false := by
+  rw [structEqM.eq_def]; simp only [hM, hU]
+  cases x <;> cases y <;> rfl
+
+theorem structEqM_bad {env : Env} {T : Ty} (hM : env.eqM? T = none)
+    (hU : (match env.under T with
+      | .named _ | .fnil | .fcons _ _ | .chan _ | .func | .iface => true
+      | _ => false) = true) (x y : Val) : structEqM env T x y = false := by
+  rw [structEqM.eq_def]; simp only [hM]
+  cases hT : env.under T <;> simp_all
+
+/-- the function generated for a non-pointer type answers with the component semantics -/
+theorem structEqTopM_not_ptr {env : Env} {T : Ty} (h : ∀ R, env.under T ≠ .ptr R) (x y : Val) :
+    structEqTopM env T x y = structEqM env T x y := by
+  rw [structEqTopM.eq_def]
+  cases hU : env.under T with
+  | ptr R => exact absurd hU (h R)
+  | _ => rfl
+
+theorem structEqTopM_ptr {env : Env} {T R : Ty} (hM : env.eqM? T = none)
+    (hU : env.under T = .ptr R) (x y : Val) :
+    structEqTopM env T x y =
+      match x, y with
+      | .nilv, .nilv => true
+      | .ptr _ a, .ptr _ b =>
+        (match structFields? (env.under R) with
+        | some fs =>
+          if R.isNamed then
+            (match a, b with
+             | .struct xs, .struct ys => fieldsEqM env fs xs ys
+             | _, _ => false)
+          else structEqM env R a b
+        | none => structEqTopM env R a b)
+      | _, _ => false := by
+  rw [structEqTopM.eq_def]; simp only [hU]
+  cases x <;> cases y <;> first | rfl | (simp only [structEqM_ptr hM hU])
+
+structure SpecMConserv (env : Env) (x : Val) : Prop where
+  val : ∀ T y, structEqM env T x y = structEq env T x y
+  seq : ∀ E ys, seqEqM env E x ys = seqEq env E x ys
+  flds : ∀ fs ys, fieldsEqM env fs x ys = fieldsEq env fs x ys
+  ents : ∀ K V ys, entriesInM env K V x ys = entriesIn env K V x ys
+
+theorem valueAtM_eq_valueAt {env : Env} {K V : Ty} {k v : Val}
+    (hk : ∀ y, structEqM env K k y = structEq env K k y)
+    (hv : ∀ y, structEqM env V v y = structEq env V v y) :
+    ∀ ys, valueAtM env K V k v ys = valueAt env K V k v ys := by
+  intro ys
+  induction ys using Val.strongInduction with
+  | step ys ih =>
+  rw [valueAtM.eq_def, valueAt.eq_def]
+  match_both
+  rw [hk, hv, ih _ (by simp <;> omega)]
+
+theorem specMConserv {env : Env} (hn : env.noMethods = true) (x : Val) : SpecMConserv env x := by
+  induction x using Val.strongInduction with
+  | step x ih =>
+  have hm := Env.eqM?_none hn
+  refine ⟨?_, ?_, ?_, ?_⟩
+  · intro T y
+    cases hU : env.under T
+    case basic b => rw [structEqM_basic (hm T) hU, structEq_basic hU]
+    case ptr R =>
+      rw [structEqM_ptr (hm T) hU, structEq_ptr hU]
+      match_both; (refine (ih _ ?_).val _ _; simp <;> omega)
+    case slice E =>
+      rw [structEqM_slice (hm T) hU, structEq_slice hU]
+      match_both; (refine (ih _ ?_).seq _ _; simp <;> omega)
+    case array n E =>
+      rw [structEqM_array (hm T) hU, structEq_array hU]
+      match_both; (refine (ih _ ?_).seq _ _; simp <;> omega)
+    case struct fs =>
+      rw [structEqM_struct (hm T) hU, structEq_struct hU]
+      match_both; (refine (ih _ ?_).flds _ _; simp <;> omega)
+    case map K V =>
+      rw [structEqM_map (hm T) hU, structEq_map hU]
+      match_both; rw [(ih _ (by simp <;> omega)).ents]
+    all_goals
+      rw [structEqM_bad (hm T) (by rw [hU]), structEq.eq_def, hU]
+  · intro E ys
+    rw [seqEqM.eq_def, seqEq.eq_def]
+    match_both
+    rw [(ih _ (by simp <;> omega)).val, (ih _ (by simp <;> omega)).seq]
+  · intro E ys
+    rw [fieldsEqM.eq_def, fieldsEq.eq_def]
+    match_both
+    rw [(ih _ (by simp <;> omega)).val, (ih _ (by simp <;> omega)).flds]
+  · intro K V ys
+    rw [entriesInM.eq_def, entriesIn.eq_def]
+    match_both
+    rename_i k v r
+    rw [(ih r (by simp <;> omega)).ents,
+      valueAtM_eq_valueAt ((ih k (by simp <;> omega)).val K) ((ih v (by simp <;> omega)).val V)]
+
+theorem structEqM_eq_structEq' {env : Env} (hn : env.noMethods = true) (T : Ty) (x y : Val) :
+    structEqM env T x y = structEq env T x y := (specMConserv hn x).val T y
+
+/-- without methods the function generated for a type answers with the component semantics -/
+theorem structEqTopM_eq_structEqM_of_noMethods {env : Env} (hn : env.noMethods = true) :
+    ∀ (x : Val) (T : Ty) (y : Val), structEqTopM env T x y = structEqM env T x y := by
+  intro x
+  induction x using Val.strongInduction with
+  | step x ih =>
+  intro T y
+  have hm := Env.eqM?_none hn
+  by_cases hP : ∃ R, env.under T = .ptr R
+  · obtain ⟨R, hU⟩ := hP
+    rw [structEqTopM_ptr (hm T) hU, structEqM_ptr (hm T) hU]
+    match_both
+    rename_i a1 a b1 b
+    cases hR : env.under R <;> simp only [structFields?] <;>
+      try (exact ih _ (by simp <;> omega) _ _)
+    case struct fs =>
+      split
+      · rw [structEqM_struct (hm R) hR]
+      · rfl
+  · exact structEqTopM_not_ptr (fun R h => hP ⟨R, h⟩) x y
+
+end SpecM
+
+
+/-! ## Supportedness in the presence of Equal methods -/
+
+def isPtrTy : Ty → Bool
+  | .ptr _ => true
+  | _ => false
+
+namespace EqualM
+
+/-- `T` is supported in component position. As `Equal.okComp`, with `canEqualM` for `canEqual`, and two
+more exclusions (both are places where the emitted code does not follow the component semantics
+`structEqM`, see the counterexamples in Props/C02c.lean):
+* a map whose KEY type is not `canEqualM` (contains a type with an Equal method): the emitted code looks
+  keys up with `==`, not with the method;
+* a pointer whose pointee is a NAMED POINTER type: the emitted code calls the function generated for the
+  pointer type, which compares the fields of the struct at the end of the chain even when that struct
+  declares an Equal method. -/
+def okComp (env : Env) : Ty → Bool
+  | .basic _ => true
+  | .named i => (env.decl? i).isSome
+  | .ptr R => (match R with | .struct _ => false | _ => true) &&
+      !(R.isNamed && isPtrTy (env.under R)) && okComp env R
+  | .slice E => okComp env E
+  | .array _ E => okComp env E
+  | .map K V => canEqualM env K && okComp env V
+  | .struct fs => canEqualM env (.struct fs)
+  | .fnil => true
+  | .fcons F r => okComp env F && okComp env r
+  | .chan _ => false
+  | .func => false
+  | .iface => false
+
+/-- supported as the underlying type of a declaration -/
+def okDecl (env : Env) : Ty → Bool
+  | .struct fs => okComp env fs
+  | T => okComp env T
+
+/-- supported as the type a function is generated for: as `okDecl`, and pointers to named pointer
+types are fine here (`structEqTopM` follows the generated function through them) -/
+def okTop (env : Env) : Ty → Bool
+  | .struct fs => okComp env fs
+  | .ptr R => (match R with | .struct _ => false | _ => true) && okTop env R
+  | T => okComp env T
+
+/-- a declaration with an Equal method is a struct with at least one field (the corpus' methods look at
+the first field) -/
+def methodOk (d : Decl) : Bool :=
+  match d.eqM with
+  | some _ => (match d.under with | .struct (.fcons _ _) => true | _ => false)
+  | none => true
+
+def envOk (env : Env) : Bool := env.decls.all fun d => okDecl env d.under && methodOk d
+
+end EqualM
+
+/-- `deriveEqual` can be generated for `T`, in an environment whose declarations may have Equal methods -/
+def SupportedM (env : Env) (T : Ty) : Bool := EqualM.okTop env T && EqualM.envOk env
+
+/-- `T` can also occur as a component -/
+def SupportedCompM (env : Env) (T : Ty) : Bool := EqualM.okComp env T && EqualM.envOk env
+
+/-! ## Facts about `canEqualM`, `eqM?` and supportedness -/
+
+theorem Env.eqM?_not_named {env : Env} {T : Ty} (h : T.isNamed = false) : env.eqM? T = none := by
+  cases T <;> first | rfl | (simp [Ty.isNamed] at h)
+
+theorem canEqualM_inv {env : Env} (hfM : env.flagsOkM = true) {T : Ty}
+    (hc : canEqualM env T = true) : env.eqM? T = none ∧ canEqualM env (env.under T) = true := by
+  cases T with
+  | named i =>
+    cases hd : env.decl? i with
+    | none => simp [canEqualM, hd] at hc
+    | some d =>
+      have h1 : d.canEqM = true := by simpa [canEqualM, hd] using hc
+      rw [Env.flagsOkM_decl hfM hd, Bool.and_eq_true, Option.isNone_iff_eq_none] at h1
+      exact ⟨by simp [Env.eqM?, hd, h1.1], by rw [Env.under_named_some hd]; exact h1.2⟩
+  | _ => exact ⟨rfl, hc⟩
+
+theorem canEqualM_eq_under {env : Env} (hfM : env.flagsOkM = true) {T : Ty}
+    (hM : env.eqM? T = none) (hU : env.under T ≠ .fnil) :
+    canEqualM env T = canEqualM env (env.under T) := by
+  cases T with
+  | named i =>
+    cases hd : env.decl? i with
+    | none => exact absurd (Env.under_named_none hd) hU
+    | some d =>
+      have hm : d.eqM = none := by simpa [Env.eqM?, hd] using hM
+      rw [Env.under_named_some hd]
+      simp [canEqualM, hd, Env.flagsOkM_decl hfM hd, hm]
+  | _ => rfl
+
+namespace EqualM
+
+theorem okComp_of_canEqualM {env : Env} : ∀ T : Ty, canEqualM env T = true → okComp env T = true := by
+  intro T
+  induction T with
+  | named i =>
+    intro h
+    simp only [canEqualM] at h
+    simp only [okComp]
+    cases hd : env.decl? i with
+    | none => simp [hd] at h
+    | some d => rfl
+  | array n E ih => intro h; exact ih (by simpa [canEqualM] using h)
+  | fcons F r ih1 ih2 =>
+    intro h
+    simp only [canEqualM, Bool.and_eq_true] at h
+    simp only [okComp, Bool.and_eq_true]
+    exact ⟨ih1 h.1, ih2 h.2⟩
+  | struct fs _ => intro h; simpa [okComp] using h
+  | basic _ => intro _; rfl
+  | fnil => intro _; rfl
+  | _ => intro h; simp [canEqualM] at h
+
+theorem okDecl_of_okComp {env : Env} {T : Ty} (h : okComp env T = true) : okDecl env T = true := by
+  cases T with
+  | struct fs =>
+    simp only [okComp, canEqualM] at h
+    exact okComp_of_canEqualM fs h
+  | _ => exact h
+
+theorem okTop_of_okDecl {env : Env} : ∀ T : Ty, okDecl env T = true → okTop env T = true := by
+  intro T
+  induction T with
+  | ptr R ih =>
+    intro h
+    simp only [okDecl, okComp, Bool.and_eq_true] at h
+    simp only [okTop, Bool.and_eq_true]
+    exact ⟨h.1.1, ih (okDecl_of_okComp h.2)⟩
+  | struct fs _ => intro h; exact h
+  | _ => intro h; exact h
+
+theorem okTop_of_okComp {env : Env} {T : Ty} (h : okComp env T = true) : okTop env T = true :=
+  okTop_of_okDecl T (okDecl_of_okComp h)
+
+theorem envOk_decl {env : Env} (he : envOk env = true) {i : Nat} {d : Decl}
+    (hd : env.decl? i = some d) : okDecl env d.under = true ∧ methodOk d = true := by
+  unfold envOk at he
+  rw [List.all_eq_true] at he
+  simpa using he d (Env.decl_mem hd)
+
+theorem okDecl_under {env : Env} (he : envOk env = true) {T : Ty} (h : okDecl env T = true) :
+    okDecl env (env.under T) = true := by
+  cases T with
+  | named i =>
+    cases hd : env.decl? i with
+    | none => rw [Env.under_named_none hd]; rfl
+    | some d => rw [Env.under_named_some hd]; exact (envOk_decl he hd).1
+  | _ => exact h
+
+theorem okTop_under {env : Env} (he : envOk env = true) {T : Ty} (h : okTop env T = true) :
+    okTop env (env.under T) = true := by
+  cases T with
+  | named i =>
+    cases hd : env.decl? i with
+    | none => rw [Env.under_named_none hd]; rfl
+    | some d => rw [Env.under_named_some hd]; exact okTop_of_okDecl _ (envOk_decl he hd).1
+  | _ => exact h
+
+/-- a declaration with an Equal method is a struct with a first field -/
+theorem eqM?_some_inv {env : Env} (he : envOk env = true) {T : Ty} {u : UserFn}
+    (hM : env.eqM? T = some u) : ∃ F rest, env.under T = .struct (.fcons F rest) := by
+  cases T with
+  | named i =>
+    cases hd : env.decl? i with
+    | none => simp [Env.eqM?, hd] at hM
+    | some d =>
+      have hm : d.eqM = some u := by simpa [Env.eqM?, hd] using hM
+      have := (envOk_decl he hd).2
+      rw [Env.under_named_some hd]
+      unfold methodOk at this
+      rw [hm] at this
+      cases hu : d.under with
+      | struct fs =>
+        cases fs with
+        | fcons F rest => exact ⟨F, rest, rfl⟩
+        | _ => simp [hu] at this
+      | _ => simp [hu] at this
+  | _ => cases hM
+
+theorem eqM?_none_of_not_struct {env : Env} (he : envOk env = true) {T : Ty}
+    (h : ∀ fs, env.under T ≠ .struct fs) : env.eqM? T = none := by
+  cases hM : env.eqM? T with
+  | none => rfl
+  | some u =>
+    obtain ⟨F, rest, hU⟩ := eqM?_some_inv he hM
+    exact absurd hU (h _)
+
+/-- the user's method does not panic on typed values, and the specification reads its answer -/
+theorem userEqVal_spec {env : Env} (he : envOk env = true) {T : Ty} {u : UserFn}
+    (hM : env.eqM? T = some u) {x y : Val} (hx : hasType env T x = true)
+    (hy : hasType env T y = true) :
+    userEqVal x y = .ok (Spec.structEqM env T x y) := by
+  obtain ⟨F, rest, hU⟩ := eqM?_some_inv he hM
+  obtain ⟨xs, rfl, hxs⟩ := hasType_struct_inv hU hx
+  obtain ⟨ys, rfl, hys⟩ := hasType_struct_inv hU hy
+  rcases fieldsHaveType_inv hxs with ⟨h, -⟩ | ⟨_, _, a, r, -, rfl, -, -⟩
+  · cases h
+  rcases fieldsHaveType_inv hys with ⟨h, -⟩ | ⟨_, _, b, s, -, rfl, -, -⟩
+  · cases h
+  rw [structEqM_method hM]
+  simp only [userEqVal, firstField, beq_ok_true]
+
+end EqualM
+
+
+/-! ## Go `==` is the component semantics on `canEqualM` types -/
+
+/-- a `canEqualM` type contains no component with an Equal method, so `==` is `structEqM` there -/
+structure GoEqMOK (env : Env) (x : Val) : Prop where
+  val : ∀ T y, canEqualM env T = true → hasType env T x = true →
+    goEq x y = Spec.structEqM env T x y
+  seq : ∀ E ys, canEqualM env E = true → allHaveType env E x = true →
+    goEq x ys = Spec.seqEqM env E x ys
+  flds : ∀ fs ys, canEqualM env fs = true → fieldsHaveType env fs x = true →
+    goEq x ys = Spec.fieldsEqM env fs x ys
+
+theorem goEqMOK {env : Env} (hf : env.flagsOk = true) (hfM : env.flagsOkM = true) (x : Val) :
+    GoEqMOK env x := by
+  induction x using Val.strongInduction with
+  | step x ih =>
+  refine ⟨?_, ?_, ?_⟩
+  · intro T y hc hx
+    obtain ⟨hM, hcU⟩ := canEqualM_inv hfM hc
+    have hnn := Env.under_not_named hf T
+    cases hU : env.under T with
+    | basic b =>
+      rw [structEqM_basic hM hU]
+      exact goEq_eq_leafEq (by rwa [hasType_basic hU] at hx) y
+    | array n E =>
+      obtain ⟨xs, rfl, -, hxs⟩ := hasType_array_inv hU hx
+      rw [structEqM_array hM hU]
+      rw [hU] at hcU
+      cases y with
+      | arr ys => exact (ih xs (by simp <;> omega)).seq E ys hcU hxs
+      | _ => rfl
+    | struct fs =>
+      obtain ⟨xs, rfl, hxs⟩ := hasType_struct_inv hU hx
+      rw [structEqM_struct hM hU]
+      rw [hU] at hcU
+      cases y with
+      | struct ys => exact (ih xs (by simp <;> omega)).flds fs ys hcU hxs
+      | _ => rfl
+    | named i => rw [hU] at hnn; simp [Ty.isNamed] at hnn
+    | fnil => rw [hasType_bad (by rw [hU])] at hx; cases hx
+    | fcons _ _ => rw [hasType_bad (by rw [hU])] at hx; cases hx
+    | _ => rw [hU] at hcU; simp [canEqualM] at hcU
+  · intro E ys hc hx
+    rw [Spec.seqEqM.eq_def]
+    rcases allHaveType_inv hx with rfl | ⟨a, r, rfl, ha, hr⟩
+    · cases ys <;> rfl
+    · cases ys with
+      | scons b s =>
+        simp only [goEq]
+        rw [(ih a (by simp <;> omega)).val E b hc ha, (ih r (by simp <;> omega)).seq E s hc hr]
+      | _ => rfl
+  · intro fs ys hc hx
+    rw [Spec.fieldsEqM.eq_def]
+    rcases fieldsHaveType_inv hx with ⟨rfl, rfl⟩ | ⟨F, rest, a, r, rfl, rfl, ha, hr⟩
+    · cases ys <;> rfl
+    · cases ys with
+      | scons b s =>
+        simp only [canEqualM, Bool.and_eq_true] at hc
+        simp only [goEq]
+        rw [(ih a (by simp <;> omega)).val F b hc.1 ha, (ih r (by simp <;> omega)).flds rest s hc.2 hr]
+      | _ => rfl
+
+theorem goEq_eq_structEqM {env : Env} (hf : env.flagsOk = true) (hfM : env.flagsOkM = true) {T : Ty}
+    {x : Val} (y : Val) (hc : canEqualM env T = true) (hx : hasType env T x = true) :
+    goEq x y = Spec.structEqM env T x y := (goEqMOK hf hfM x).val T y hc hx
+
+theorem goEq_eq_seqEqM {env : Env} (hf : env.flagsOk = true) (hfM : env.flagsOkM = true) {E : Ty}
+    {xs : Val} (ys : Val) (hc : canEqualM env E = true) (hx : allHaveType env E xs = true) :
+    goEq xs ys = Spec.seqEqM env E xs ys := (goEqMOK hf hfM xs).seq E ys hc hx
+
+/-! ## Map lookup against `valueAtM` -/
+
+theorem valueAtM_false_of_fresh {env : Env} (hf : env.flagsOk = true) (hfM : env.flagsOkM = true)
+    {K V : Ty} {k v : Val} (hc : canEqualM env K = true) (hk : hasType env K k = true) :
+    ∀ s, keyFresh k s = true → Spec.valueAtM env K V k v s = false := by
+  intro s
+  induction s using Val.strongInduction with
+  | step s ih =>
+  intro hfr
+  rw [Spec.valueAtM.eq_def]
+  cases s with
+  | scons hd tl =>
+    cases hd with
+    | pair k' w =>
+      simp only [keyFresh, Bool.and_eq_true, Bool.not_eq_true'] at hfr
+      simp only
+      rw [← goEq_eq_structEqM hf hfM k' hc hk, hfr.1, ih tl (by simp <;> omega) hfr.2]
+      rfl
+    | _ => rfl
+  | _ => rfl
+
+theorem valueAtM_eq_lookup {env : Env} (hf : env.flagsOk = true) (hfM : env.flagsOkM = true)
+    {K V : Ty} {k v : Val} (hc : canEqual env K = true) (hcM : canEqualM env K = true)
+    (hk : hasType env K k = true) :
+    ∀ s, entriesHaveType env K V s = true → keysDistinct s = true →
+      Spec.valueAtM env K V k v s =
+        match mapLookup k s with
+        | none => false
+        | some w => Spec.structEqM env V v w := by
+  intro s
+  induction s using Val.strongInduction with
+  | step s ih =>
+  intro hs hd
+  rcases entriesHaveType_inv hs with rfl | ⟨k', w, r, rfl, hk', -, hr⟩
+  · rw [Spec.valueAtM.eq_def]; rfl
+  · simp only [keysDistinct, Bool.and_eq_true] at hd
+    rw [Spec.valueAtM.eq_1, ← goEq_eq_structEqM hf hfM k' hcM hk]
+    simp only [mapLookup]
+    cases h : goEq k k' with
+    | true =>
+      have hfr := keyFresh_of_goEq (V := V) hf hc hk hk' h r hr hd.1
+      rw [valueAtM_false_of_fresh hf hfM hcM hk r hfr]
+      simp
+    | false =>
+      rw [ih r (by simp <;> omega) hr hd.2]
+      simp
+
+theorem seqEqM_false_of_slen_ne {env : Env} {E : Ty} :
+    ∀ xs ys : Val, xs.slen ≠ ys.slen → Spec.seqEqM env E xs ys = false := by
+  intro xs
+  induction xs using Val.strongInduction with
+  | step xs ih =>
+  intro ys hne
+  rw [Spec.seqEqM.eq_def]
+  cases xs with
+  | snil => cases ys <;> first | rfl | (simp [Val.slen] at hne)
+  | scons a r =>
+    cases ys with
+    | scons b s =>
+      simp only
+      rw [ih r (by simp <;> omega) s (by simpa [Val.slen] using hne), Bool.and_false]
+    | _ => rfl
+  | _ => rfl
+
+theorem isByte_canEqualM {env : Env} {E : Ty} (h : isByte E = true) : canEqualM env E = true := by
+  cases E <;> first | rfl | (simp [isByte] at h)
+
+theorem structEqM_congr {env : Env} {T T' : Ty} (hM : env.eqM? T = env.eqM? T')
+    (hU : env.under T = env.under T') (x y : Val) :
+    Spec.structEqM env T x y = Spec.structEqM env T' x y := by
+  rw [Spec.structEqM.eq_def, Spec.structEqM.eq_def env T', hM, hU]
+
+/-! ## Shape of `EqualM` once the method and the underlying type are known -/
+
+namespace EqualM
+
+theorem top_basic {env : Env} {T : Ty} {b : Basic} (hU : env.under T = .basic b) (x y : Val) :
+    top env T x y = .ok (goEq x y) := by
+  rw [top.eq_def]; simp only [hU]
+
+theorem top_ptr_struct {env : Env} {T R fs : Ty} (hU : env.under T = .ptr R)
+    (hR : env.under R = .struct fs) (hn : R.isNamed = true) (x y : Val) :
+    top env T x y =
+      match x, y with
+      | .nilv, .nilv => .ok true
+      | .nilv, .ptr _ _ => .ok false
+      | .ptr _ _, .nilv => .ok false
+      | .ptr _ (.struct xs), .ptr _ (.struct ys) => fields env fs xs ys
+      | _, _ => .panic := by
+  rw [top.eq_def]; simp only [hU, hR, hn, if_true]
+  rfl
+
+theorem top_ptr_other {env : Env} {T R : Ty} (hU : env.under T = .ptr R)
+    (hR : ∀ fs, env.under R ≠ .struct fs) (x y : Val) :
+    top env T x y =
+      match x, y with
+      | .nilv, .nilv => .ok true
+      | .nilv, .ptr _ _ => .ok false
+      | .ptr _ _, .nilv => .ok false
+      | .ptr _ a, .ptr _ b => top env R a b
+      | _, _ => .panic := by
+  rw [top.eq_def]; simp only [hU]
+  cases hG : env.under R with
+  | struct fs => exact absurd hG (hR fs)
+  | _ => rfl
+
+theorem top_struct_method {env : Env} {T fs : Ty} {u : UserFn} (hU : env.under T = .struct fs)
+    (hn : T.isNamed = true) (hM : env.eqM? T = some u) (x y : Val) :
+    top env T x y = userEqVal x y := by
+  rw [top.eq_def]; simp only [hU, hn, hM, if_true]
+
+theorem top_struct_named {env : Env} {T fs : Ty} (hU : env.under T = .struct fs)
+    (hn : T.isNamed = true) (hM : env.eqM? T = none) (x y : Val) :
+    top env T x y =
+      match x, y with
+      | .struct xs, .struct ys => fields env fs xs ys
+      | _, _ => .panic := by
+  rw [top.eq_def]; simp only [hU, hn, hM, if_true]
+  rfl
+
+theorem top_struct_eq {env : Env} {T fs : Ty} (hU : env.under T = .struct fs)
+    (hn : T.isNamed = false) (hc : canEqualM env (.struct fs) = true) (x y : Val) :
+    top env T x y = .ok (goEq x y) := by
+  rw [top.eq_def]; simp only [hU, hn, hc, if_true, Bool.false_eq_true, if_false]
+
+theorem top_struct_fields {env : Env} {T fs : Ty} (hU : env.under T = .struct fs)
+    (hn : T.isNamed = false) (hc : canEqualM env (.struct fs) = false) (x y : Val) :
+    top env T x y =
+      match x, y with
+      | .struct xs, .struct ys => fields env fs xs ys
+      | _, _ => .panic := by
+  rw [top.eq_def]; simp only [hU, hn, hc, Bool.false_eq_true, if_false]
+  rfl
+
+theorem top_slice {env : Env} {T E : Ty} (hU : env.under T = .slice E) (x y : Val) :
+    top env T x y =
+      match x, y with
+      | .nilv, .nilv => .ok true
+      | .nilv, .slice _ _ _ => .ok false
+      | .slice _ _ _, .nilv => .ok false
+      | .slice _ _ xs, .slice _ _ ys =>
+        if xs.slen != ys.slen then .ok false else elems env E xs ys
+      | _, _ => .panic := by
+  rw [top.eq_def]; simp only [hU]
+  rfl
+
+theorem top_array {env : Env} {T E : Ty} {n : Nat} (hU : env.under T = .array n E) (x y : Val) :
+    top env T x y =
+      match x, y with
+      | .arr xs, .arr ys => elems env E xs ys
+      | _, _ => .panic := by
+  rw [top.eq_def]; simp only [hU]
+  rfl
+
+theorem top_map {env : Env} {T K V : Ty} (hU : env.under T = .map K V) (x y : Val) :
+    top env T x y =
+      match x, y with
+      | .nilv, .nilv => .ok true
+      | .nilv, .map _ _ => .ok false
+      | .map _ _, .nilv => .ok false
+      | .map _ xs, .map _ ys =>
+        if xs.slen != ys.slen then .ok false else entries env V xs ys
+      | _, _ => .panic := by
+  rw [top.eq_def]; simp only [hU]
+  rfl
+
+theorem field_method {env : Env} {F : Ty} {u : UserFn} (hM : env.eqM? F = some u) (x y : Val) :
+    field env F x y = userEqVal x y := by
+  rw [field.eq_def]; simp only [hM]
+
+theorem field_canEqual {env : Env} {F : Ty} (hM : env.eqM? F = none)
+    (hc : canEqualM env F = true) (x y : Val) : field env F x y = .ok (goEq x y) := by
+  rw [field.eq_def]; simp only [hM, hc, if_true]
+
+theorem field_ptr_mptr {env : Env} {F R : Ty} (hM : env.eqM? F = none)
+    (hc : canEqualM env F = false) (hU : env.under F = .ptr R) (hR : env.eqM? R = some .ptr)
+    (x y : Val) : field env F x y = userEqPtr x y := by
+  rw [field.eq_def]; simp only [hM, hc, hU, hR, Bool.false_eq_true, if_false]
+
+theorem field_ptr_mval {env : Env} {F R : Ty} (hM : env.eqM? F = none)
+    (hc : canEqualM env F = false) (hU : env.under F = .ptr R) (hR : env.eqM? R = some .val)
+    (x y : Val) :
+    field env F x y =
+      match x, y with
+      | .nilv, .nilv => .ok true
+      | .nilv, .ptr _ _ => .ok false
+      | .ptr _ _, .nilv => .ok false
+      | .ptr _ a, .ptr _ b => userEqVal a b
+      | _, _ => .panic := by
+  rw [field.eq_def]; simp only [hM, hc, hU, hR, Bool.false_eq_true, if_false]
+  rfl
+
+theorem field_ptr_named {env : Env} {F R : Ty} (hM : env.eqM? F = none)
+    (hc : canEqualM env F = false) (hU : env.under F = .ptr R) (hR : env.eqM? R = none)
+    (hn : R.isNamed = true) (x y : Val) :
+    field env F x y = top env (.ptr R) x y := by
+  rw [field.eq_def]; simp only [hM, hc, hU, hR, hn, if_true, Bool.false_eq_true, if_false]
+
+theorem field_ptr_unnamed {env : Env} {F R : Ty} (hM : env.eqM? F = none)
+    (hc : canEqualM env F = false) (hU : env.under F = .ptr R) (hR : env.eqM? R = none)
+    (hn : R.isNamed = false) (x y : Val) :
+    field env F x y =
+      match x, y with
+      | .nilv, .nilv => .ok true
+      | .nilv, .ptr _ _ => .ok false
+      | .ptr _ _, .nilv => .ok false
+      | .ptr _ a, .ptr _ b => field env R a b
+      | _, _ => .panic := by
+  rw [field.eq_def]; simp only [hM, hc, hU, hR, hn, Bool.false_eq_true, if_false]
+  rfl
+
+theorem field_array {env : Env} {F E : Ty} {n : Nat} (hM : env.eqM? F = none)
+    (hc : canEqualM env F = false) (hU : env.under F = .array n E) (x y : Val) :
+    field env F x y = top env (.array n E) x y := by
+  rw [field.eq_def]; simp only [hM, hc, hU, Bool.false_eq_true, if_false]
+
+theorem field_slice_byte {env : Env} {F E : Ty} (hM : env.eqM? F = none)
+    (hc : canEqualM env F = false) (hU : env.under F = .slice E) (hb : isByte E = true)
+    (x y : Val) : field env F x y = bytesEqual x y := by
+  rw [field.eq_def]; simp only [hM, hc, hU, hb, if_true, Bool.false_eq_true, if_false]
+
+theorem field_slice {env : Env} {F E : Ty} (hM : env.eqM? F = none)
+    (hc : canEqualM env F = false) (hU : env.under F = .slice E) (hb : isByte E = false)
+    (x y : Val) : field env F x y = top env (.slice E) x y := by
+  rw [field.eq_def]; simp only [hM, hc, hU, hb, Bool.false_eq_true, if_false]
+
+theorem field_map {env : Env} {F K V : Ty} (hM : env.eqM? F = none)
+    (hc : canEqualM env F = false) (hU : env.under F = .map K V) (x y : Val) :
+    field env F x y = top env (.map K V) x y := by
+  rw [field.eq_def]; simp only [hM, hc, hU, Bool.false_eq_true, if_false]
+
+theorem field_struct_named {env : Env} {F fs : Ty} (hM : env.eqM? F = none)
+    (hc : canEqualM env F = false) (hU : env.under F = .struct fs) (hn : F.isNamed = true)
+    (x y : Val) : field env F x y = top env F x y := by
+  rw [field.eq_def]; simp only [hM, hc, hU, hn, if_true, Bool.false_eq_true, if_false]
+
+end EqualM
+
+
+/-! ## The method-aware model computes the method-aware specification -/
+
+open Spec EqualM in
+structure EqualMOK (env : Env) (x : Val) : Prop where
+  top : ∀ T y, okTop env T = true → hasType env T x = true → hasType env T y = true →
+    EqualM.top env T x y = .ok (structEqTopM env T x y)
+  field : ∀ F y, okComp env F = true → hasType env F x = true → hasType env F y = true →
+    EqualM.field env F x y = .ok (structEqM env F x y)
+  fields : ∀ fs ys, okComp env fs = true → fieldsHaveType env fs x = true →
+    fieldsHaveType env fs ys = true → EqualM.fields env fs x ys = .ok (fieldsEqM env fs x ys)
+  elems : ∀ E ys, okComp env E = true → allHaveType env E x = true →
+    allHaveType env E ys = true → x.slen = ys.slen →
+    EqualM.elems env E x ys = .ok (seqEqM env E x ys)
+  entries : ∀ K V ys, okComp env V = true → canEqual env K = true → canEqualM env K = true →
+    entriesHaveType env K V x = true → entriesHaveType env K V ys = true →
+    keysDistinct ys = true → EqualM.entries env V x ys = .ok (entriesInM env K V x ys)
+
+section StepsM
+open Spec EqualM
+variable {env : Env} (hf : env.flagsOk = true) (hfM : env.flagsOkM = true)
+  (he : envOk env = true)
+
+theorem EqualMOK.step_fields (x : Val) (ih : ∀ z, sizeOf z < sizeOf x → EqualMOK env z) :
+    ∀ fs ys, okComp env fs = true → fieldsHaveType env fs x = true →
+    fieldsHaveType env fs ys = true → EqualM.fields env fs x ys = .ok (fieldsEqM env fs x ys) := by
+  intro fs ys ho hx hy
+  rcases fieldsHaveType_inv hx with ⟨rfl, rfl⟩ | ⟨F, rest, a, r, rfl, rfl, ha, hr⟩
+  · rcases fieldsHaveType_inv hy with ⟨-, rfl⟩ | ⟨_, _, _, _, h, _⟩
+    · rw [EqualM.fields, Spec.fieldsEqM]
+    · cases h
+  · rcases fieldsHaveType_inv hy with ⟨h, -⟩ | ⟨F', rest', b, s, h, rfl, hb, hs⟩
+    · cases h
+    · cases h
+      simp only [okComp, Bool.and_eq_true] at ho
+      rw [EqualM.fields, Spec.fieldsEqM, (ih a (by simp <;> omega)).field F b ho.1 ha hb, Res.bind_ok,
+        (ih r (by simp <;> omega)).fields rest s ho.2 hr hs]
+      cases structEqM env F a b <;> rfl
+
+theorem EqualMOK.step_elems (x : Val) (ih : ∀ z, sizeOf z < sizeOf x → EqualMOK env z) :
+    ∀ E ys, okComp env E = true → allHaveType env E x = true →
+    allHaveType env E ys = true → x.slen = ys.slen →
+    EqualM.elems env E x ys = .ok (seqEqM env E x ys) := by
+  intro E ys ho hx hy hl
+  rcases allHaveType_inv hx with rfl | ⟨a, r, rfl, ha, hr⟩ <;>
+    rcases allHaveType_inv hy with rfl | ⟨b, s, rfl, hb, hs⟩
+  · rw [EqualM.elems, Spec.seqEqM]
+  · simp [Val.slen] at hl
+  · simp [Val.slen] at hl
+  · have hl' : r.slen = s.slen := by simpa [Val.slen] using hl
+    rw [EqualM.elems, Spec.seqEqM, (ih a (by simp <;> omega)).field E b ho ha hb, Res.bind_ok,
+      (ih r (by simp <;> omega)).elems E s ho hr hs hl']
+    cases structEqM env E a b <;> rfl
+
+include hf hfM in
+theorem EqualMOK.step_entries (x : Val) (ih : ∀ z, sizeOf z < sizeOf x → EqualMOK env z) :
+    ∀ K V ys, okComp env V = true → canEqual env K = true → canEqualM env K = true →
+    entriesHaveType env K V x = true → entriesHaveType env K V ys = true →
+    keysDistinct ys = true → EqualM.entries env V x ys = .ok (entriesInM env K V x ys) := by
+  intro K V ys hV hK hKM hx hy hd
+  rcases entriesHaveType_inv hx with rfl | ⟨k, v, r, rfl, hk, hv, hr⟩
+  · rw [EqualM.entries, Spec.entriesInM]
+  · rw [EqualM.entries, Spec.entriesInM, valueAtM_eq_lookup hf hfM hK hKM hk ys hy hd]
+    cases hl : mapLookup k ys with
+    | none => rfl
+    | some w =>
+      have hw := mapLookup_hasType ys hy hl
+      simp only
+      rw [(ih v (by simp <;> omega)).field V w hV hv hw, Res.bind_ok,
+        (ih r (by simp <;> omega)).entries K V ys hV hK hKM hr hy hd]
+      cases structEqM env V v w <;> rfl
+
+include hf hfM he in
+theorem EqualMOK.step_top (x : Val) (ih : ∀ z, sizeOf z < sizeOf x → EqualMOK env z) :
+    ∀ T y, okTop env T = true → hasType env T x = true → hasType env T y = true →
+    EqualM.top env T x y = .ok (structEqTopM env T x y) := by
+  intro T y hT hx hy
+  have hUok := okTop_under he hT
+  have hnn := Env.under_not_named hf T
+  cases hU : env.under T with
+  | basic b =>
+    have hM := eqM?_none_of_not_struct he (T := T) (by rw [hU]; intro fs h; cases h)
+    rw [top_basic hU, structEqTopM_not_ptr (by rw [hU]; intro R h; cases h),
+      structEqM_basic hM hU, goEq_eq_leafEq (by rwa [hasType_basic hU] at hx)]
+  | ptr R =>
+    have hM := eqM?_none_of_not_struct he (T := T) (by rw [hU]; intro fs h; cases h)
+    rw [hU] at hUok
+    simp only [okTop, Bool.and_eq_true] at hUok
+    obtain ⟨hRns, hR⟩ := hUok
+    rw [structEqTopM_ptr hM hU]
+    by_cases hS : ∃ fs, env.under R = .struct fs
+    · obtain ⟨fs, hS⟩ := hS
+      have hn : R.isNamed = true := by
+        cases R <;> simp_all [Env.under, Ty.isNamed]
+      have hfs : okComp env fs = true := by
+        have := okTop_under he hR
+        rw [hS] at this; exact this
+      rw [top_ptr_struct hU hS hn]
+      rcases hasType_ptr_inv hU hx with rfl | ⟨a, v, rfl, hv⟩ <;>
+        rcases hasType_ptr_inv hU hy with rfl | ⟨b, w, rfl, hw⟩ <;> try rfl
+      obtain ⟨xs, rfl, hxs⟩ := hasType_struct_inv hS hv
+      obtain ⟨ys, rfl, hys⟩ := hasType_struct_inv hS hw
+      simp only [hS, structFields?, hn, if_true]
+      exact (ih xs (by simp <;> omega)).fields fs ys hfs hxs hys
+    · rw [top_ptr_other hU (fun fs h => hS ⟨fs, h⟩)]
+      rcases hasType_ptr_inv hU hx with rfl | ⟨a, v, rfl, hv⟩ <;>
+        rcases hasType_ptr_inv hU hy with rfl | ⟨b, w, rfl, hw⟩ <;> try rfl
+      have hnone : structFields? (env.under R) = none := by
+        cases hG : env.under R with
+        | struct fs => exact absurd ⟨fs, hG⟩ hS
+        | _ => rfl
+      simp only [hnone]
+      exact (ih v (by simp <;> omega)).top R w hR hv hw
+  | struct fs =>
+    rw [hU] at hUok
+    have hfs : okComp env fs = true := hUok
+    rw [structEqTopM_not_ptr (by rw [hU]; intro R h; cases h)]
+    by_cases hn : T.isNamed = true
+    · cases hM : env.eqM? T with
+      | some u => rw [top_struct_method hU hn hM, userEqVal_spec he hM hx hy]
+      | none =>
+        obtain ⟨xs, rfl, hxs⟩ := hasType_struct_inv hU hx
+        obtain ⟨ys, rfl, hys⟩ := hasType_struct_inv hU hy
+        rw [top_struct_named hU hn hM, structEqM_struct hM hU]
+        exact (ih xs (by simp <;> omega)).fields fs ys hfs hxs hys
+    · have hn' : T.isNamed = false := by simpa using hn
+      have hM := Env.eqM?_not_named (env := env) hn'
+      obtain ⟨xs, rfl, hxs⟩ := hasType_struct_inv hU hx
+      obtain ⟨ys, rfl, hys⟩ := hasType_struct_inv hU hy
+      cases hc : canEqualM env (.struct fs) with
+      | false =>
+        rw [top_struct_fields hU hn' hc, structEqM_struct hM hU]
+        exact (ih xs (by simp <;> omega)).fields fs ys hfs hxs hys
+      | true =>
+        rw [top_struct_eq hU hn' hc]
+        have hTU : env.under T = T := env.under_of_not_named hn'
+        rw [hTU] at hU
+        subst hU
+        rw [goEq_eq_structEqM hf hfM _ hc hx]
+  | slice E =>
+    have hM := eqM?_none_of_not_struct he (T := T) (by rw [hU]; intro fs h; cases h)
+    rw [hU] at hUok
+    have hE : okComp env E = true := hUok
+    rw [top_slice hU, structEqTopM_not_ptr (by rw [hU]; intro R h; cases h), structEqM_slice hM hU]
+    rcases hasType_slice_inv hU hx with rfl | ⟨a, sp, xs, rfl, hxs⟩ <;>
+      rcases hasType_slice_inv hU hy with rfl | ⟨b, sp', ys, rfl, hys⟩ <;> try rfl
+    simp only
+    by_cases hl : xs.slen = ys.slen
+    · rw [if_neg (by simpa using hl)]
+      exact (ih xs (by simp <;> omega)).elems E ys hE hxs hys hl
+    · rw [if_pos (by simpa using hl), seqEqM_false_of_slen_ne xs ys hl]
+  | array n E =>
+    have hM := eqM?_none_of_not_struct he (T := T) (by rw [hU]; intro fs h; cases h)
+    rw [hU] at hUok
+    have hE : okComp env E = true := hUok
+    rw [top_array hU, structEqTopM_not_ptr (by rw [hU]; intro R h; cases h), structEqM_array hM hU]
+    obtain ⟨xs, rfl, hlx, hxs⟩ := hasType_array_inv hU hx
+    obtain ⟨ys, rfl, hly, hys⟩ := hasType_array_inv hU hy
+    exact (ih xs (by simp <;> omega)).elems E ys hE hxs hys (by rw [hlx, hly])
+  | map K V =>
+    have hM := eqM?_none_of_not_struct he (T := T) (by rw [hU]; intro fs h; cases h)
+    rw [hU] at hUok
+    simp only [okTop, okComp, Bool.and_eq_true] at hUok
+    rw [top_map hU, structEqTopM_not_ptr (by rw [hU]; intro R h; cases h), structEqM_map hM hU]
+    rcases hasType_map_inv hU hx with rfl | ⟨a, xs, rfl, hK, hxs, -⟩ <;>
+      rcases hasType_map_inv hU hy with rfl | ⟨b, ys, rfl, -, hys, hd⟩ <;> try rfl
+    simp only
+    by_cases hl : xs.slen = ys.slen
+    · have hb : (xs.slen == ys.slen) = true := by rw [hl]; exact beq_self_eq_true _
+      rw [if_neg (by simpa using hl),
+        (ih xs (by simp <;> omega)).entries K V ys hUok.2 hK hUok.1 hxs hys hd, hb, Bool.true_and]
+    · have hb : (xs.slen == ys.slen) = false := beq_eq_false_iff_ne.mpr hl
+      rw [if_pos (by simpa using hl), hb, Bool.false_and]
+  | named i => rw [hU] at hnn; simp [Ty.isNamed] at hnn
+  | _ => rw [hasType_bad (by rw [hU])] at hx; cases hx
+
+include hf hfM he in
+theorem EqualMOK.step_field (x : Val)
+    (htop : ∀ T y, okTop env T = true → hasType env T x = true → hasType env T y = true →
+      EqualM.top env T x y = .ok (structEqTopM env T x y))
+    (ih : ∀ z, sizeOf z < sizeOf x → EqualMOK env z) :
+    ∀ F y, okComp env F = true → hasType env F x = true → hasType env F y = true →
+    EqualM.field env F x y = .ok (structEqM env F x y) := by
+  intro F y hF hx hy
+  cases hM : env.eqM? F with
+  | some u => rw [field_method hM, userEqVal_spec he hM hx hy]
+  | none =>
+  cases hc : canEqualM env F with
+  | true => rw [field_canEqual hM hc, goEq_eq_structEqM hf hfM y hc hx]
+  | false =>
+    have hUok := okDecl_under he (okDecl_of_okComp hF)
+    have hnn := Env.under_not_named hf F
+    cases hU : env.under F with
+    | ptr R =>
+      rw [hU] at hUok
+      have hPok : okComp env (.ptr R) = true := hUok
+      simp only [okDecl, okComp, Bool.and_eq_true, Bool.not_eq_true', Bool.and_eq_false_iff] at hUok
+      obtain ⟨⟨hRns, hRnp⟩, hR⟩ := hUok
+      rw [structEqM_ptr hM hU]
+      cases hMR : env.eqM? R with
+      | some u =>
+        cases u with
+        | ptr =>
+          rw [field_ptr_mptr hM hc hU hMR]
+          rcases hasType_ptr_inv hU hx with rfl | ⟨a, v, rfl, hv⟩ <;>
+            rcases hasType_ptr_inv hU hy with rfl | ⟨b, w, rfl, hw⟩ <;> try rfl
+          simp only [userEqPtr]
+          exact userEqVal_spec he hMR hv hw
+        | val =>
+          rw [field_ptr_mval hM hc hU hMR]
+          rcases hasType_ptr_inv hU hx with rfl | ⟨a, v, rfl, hv⟩ <;>
+            rcases hasType_ptr_inv hU hy with rfl | ⟨b, w, rfl, hw⟩ <;> try rfl
+          exact userEqVal_spec he hMR hv hw
+      | none =>
+        by_cases hRn : R.isNamed = true
+        · have hcg : env.under F = env.under (.ptr R) := by rw [hU]; rfl
+          rw [field_ptr_named hM hc hU hMR hRn,
+            htop (.ptr R) y (okTop_of_okComp hPok) (by rwa [← hasType_congr hcg])
+              (by rwa [← hasType_congr hcg]),
+            structEqTopM_ptr (T := .ptr R) rfl rfl]
+          rcases hasType_ptr_inv hU hx with rfl | ⟨a, v, rfl, hv⟩ <;>
+            rcases hasType_ptr_inv hU hy with rfl | ⟨b, w, rfl, hw⟩ <;> try rfl
+          simp only
+          cases hG : env.under R with
+          | struct fs =>
+            simp only [structFields?, hRn, if_true]
+            rw [structEqM_struct hMR hG]
+          | ptr R' =>
+            rcases hRnp with h | h
+            · rw [h] at hRn; cases hRn
+            · rw [hG] at h; simp [isPtrTy] at h
+          | _ =>
+            simp only [structFields?]
+            exact congrArg _ (structEqTopM_not_ptr (by rw [hG]; intro R' h; cases h) v w)
+        · have hRn' : R.isNamed = false := by simpa using hRn
+          rw [field_ptr_unnamed hM hc hU hMR hRn']
+          rcases hasType_ptr_inv hU hx with rfl | ⟨a, v, rfl, hv⟩ <;>
+            rcases hasType_ptr_inv hU hy with rfl | ⟨b, w, rfl, hw⟩ <;> try rfl
+          exact (ih v (by simp <;> omega)).field R w hR hv hw
+    | array n E =>
+      rw [hU] at hUok
+      have hcg : env.under F = env.under (.array n E) := by rw [hU]; rfl
+      rw [field_array hM hc hU, structEqM_congr (T' := .array n E) hM hcg,
+        htop _ y (okTop_of_okDecl _ hUok) (by rwa [← hasType_congr hcg]) (by rwa [← hasType_congr hcg]),
+        structEqTopM_not_ptr (by intro R h; cases h)]
+    | slice E =>
+      rw [hU] at hUok
+      cases hb : isByte E with
+      | true =>
+        rw [field_slice_byte hM hc hU hb, structEqM_slice hM hU]
+        rcases hasType_slice_inv hU hx with rfl | ⟨a, sp, xs, rfl, hxs⟩ <;>
+          rcases hasType_slice_inv hU hy with rfl | ⟨b, sp', ys, rfl, hys⟩ <;> try rfl
+        simp only [bytesEqual]
+        rw [goEq_eq_seqEqM hf hfM ys (isByte_canEqualM hb) hxs]
+      | false =>
+        have hcg : env.under F = env.under (.slice E) := by rw [hU]; rfl
+        rw [field_slice hM hc hU hb, structEqM_congr (T' := .slice E) hM hcg,
+          htop _ y (okTop_of_okDecl _ hUok) (by rwa [← hasType_congr hcg])
+            (by rwa [← hasType_congr hcg]),
+          structEqTopM_not_ptr (by intro R h; cases h)]
+    | map K V =>
+      rw [hU] at hUok
+      have hcg : env.under F = env.under (.map K V) := by rw [hU]; rfl
+      rw [field_map hM hc hU, structEqM_congr (T' := .map K V) hM hcg,
+        htop _ y (okTop_of_okDecl _ hUok) (by rwa [← hasType_congr hcg]) (by rwa [← hasType_congr hcg]),
+        structEqTopM_not_ptr (by intro R h; cases h)]
+    | struct fs =>
+      by_cases hn : F.isNamed = true
+      · rw [field_struct_named hM hc hU hn, htop F y (okTop_of_okComp hF) hx hy,
+          structEqTopM_not_ptr (by rw [hU]; intro R h; cases h)]
+      · have hn' : F.isNamed = false := by simpa using hn
+        rw [env.under_of_not_named hn'] at hU
+        subst hU
+        simp only [okComp] at hF
+        rw [hF] at hc; cases hc
+    | basic b =>
+      rw [canEqualM_eq_under hfM hM (by rw [hU]; intro h; cases h), hU] at hc
+      simp [canEqualM] at hc
+    | named i => rw [hU] at hnn; simp [Ty.isNamed] at hnn
+    | _ => rw [hasType_bad (by rw [hU])] at hx; cases hx
+
+end StepsM
+
+open EqualM in
+theorem equalMOK {env : Env} (hf : env.flagsOk = true) (hfM : env.flagsOkM = true)
+    (he : envOk env = true) (x : Val) : EqualMOK env x := by
+  induction x using Val.strongInduction with
+  | step x ih =>
+  have htop := EqualMOK.step_top hf hfM he x ih
+  exact ⟨htop, EqualMOK.step_field hf hfM he x htop ih, EqualMOK.step_fields x ih,
+    EqualMOK.step_elems x ih, EqualMOK.step_entries hf hfM x ih⟩
+
+
+
+/-! ## Evaluation lemmas for the method-aware specification (for concrete examples) -/
+
+section EvalM
+open Spec
+variable (env : Env)
+
+theorem structEqM_eval_named (i : Nat) (x y : Val) (h : (env.under (.named i)).isNamed = false) :
+    structEqM env (.named i) x y =
+      match env.eqM? (.named i) with
+      | some _ => userEqVal x y == .ok true
+      | none => structEqM env (env.under (.named i)) x y := by
+  cases hM : env.eqM? (.named i) with
+  | some u => exact structEqM_method hM x y
+  | none =>
+    exact structEqM_congr (by rw [hM, Env.eqM?_not_named h])
+      (env.under_of_not_named h).symm x y
+theorem structEqM_eval_basic (b : Basic) (x y : Val) : structEqM env (.basic b) x y = leafEq x y :=
+  structEqM_basic rfl rfl x y
+theorem structEqM_eval_ptr (R : Ty) (x y : Val) :
+    structEqM env (.ptr R) x y =
+      match x, y with
+      | .nilv, .nilv => true
+      | .ptr _ a, .ptr _ b => structEqM env R a b
+      | _, _ => false := structEqM_ptr rfl rfl x y
+theorem structEqM_eval_slice (E : Ty) (x y : Val) :
+    structEqM env (.slice E) x y =
+      match x, y with
+      | .nilv, .nilv => true
+      | .slice _ _ xs, .slice _ _ ys => seqEqM env E xs ys
+      | _, _ => false := structEqM_slice rfl rfl x y
+theorem structEqM_eval_array (n : Nat) (E : Ty) (x y : Val) :
+    structEqM env (.array n E) x y =
+      match x, y with
+      | .arr xs, .arr ys => seqEqM env E xs ys
+      | _, _ => false := structEqM_array rfl rfl x y
+theorem structEqM_eval_struct (fs : Ty) (x y : Val) :
+    structEqM env (.struct fs) x y =
+      match x, y with
+      | .struct xs, .struct ys => fieldsEqM env fs xs ys
+      | _, _ => false := structEqM_struct rfl rfl x y
+theorem structEqM_eval_map (K V : Ty) (x y : Val) :
+    structEqM env (.map K V) x y =
+      match x, y with
+      | .nilv, .nilv => true
+      | .map _ xs, .map _ ys => xs.slen == ys.slen && entriesInM env K V xs ys
+      | _, _ => false := structEqM_map rfl rfl x y
+theorem structEqTopM_eval_ptr (R : Ty) (x y : Val) :
+    structEqTopM env (.ptr R) x y =
+      match x, y with
+      | .nilv, .nilv => true
+      | .ptr _ a, .ptr _ b =>
+        (match structFields? (env.under R) with
+        | some fs =>
+          if R.isNamed then
+            (match a, b with
+             | .struct xs, .struct ys => fieldsEqM env fs xs ys
+             | _, _ => false)
+          else structEqM env R a b
+        | none => structEqTopM env R a b)
+      | _, _ => false := structEqTopM_ptr rfl rfl x y
+theorem structEqTopM_eval_named (i : Nat) (x y : Val)
+    (h : (match env.under (.named i) with | .ptr _ => false | _ => true) = true) :
+    structEqTopM env (.named i) x y = structEqM env (.named i) x y :=
+  structEqTopM_not_ptr (by intro R hR; rw [hR] at h; cases h) x y
+
+theorem structEqTopM_congr' {T T' : Ty} (hM : env.eqM? T = env.eqM? T')
+    (hU : env.under T = env.under T') (x y : Val) :
+    structEqTopM env T x y = structEqTopM env T' x y := by
+  rw [structEqTopM.eq_def, structEqTopM.eq_def env T', hU, structEqM_congr hM hU]
+theorem structEqTopM_eval_named_ptr (i : Nat) (x y : Val)
+    (hM : env.eqM? (.named i) = none) (h : (env.under (.named i)).isNamed = false) :
+    structEqTopM env (.named i) x y = structEqTopM env (env.under (.named i)) x y :=
+  structEqTopM_congr' env (by rw [hM, Env.eqM?_not_named h]) (env.under_of_not_named h).symm x y
+
+end EvalM
+
+/-- `goderive_eval` extended with the method-aware specification -/
+syntax "goderive_evalM" (" [" Lean.Parser.Tactic.simpLemma,* "]")? : tactic
+macro_rules
+  | `(tactic| goderive_evalM) => `(tactic| goderive_evalM [])
+  | `(tactic| goderive_evalM [$ls,*]) => `(tactic|
+      goderive_eval [structEqM_eval_named, structEqM_eval_basic, structEqM_eval_ptr,
+        structEqM_eval_slice, structEqM_eval_array, structEqM_eval_struct, structEqM_eval_map,
+        structEqTopM_eval_ptr, structEqTopM_eval_named, structEqTopM_eval_named_ptr,
+        Spec.structFields?,
+        Spec.fieldsEqM, Spec.seqEqM, Spec.entriesInM, Spec.valueAtM, Env.eqM?, userEqVal,
+        firstField, beq_ok_true, canEqualM, $ls,*])
+
+/-- evaluate the method-aware model `EqualM` on concrete data -/
+syntax "equalM_eval" (" [" Lean.Parser.Tactic.simpLemma,* "]")? : tactic
+macro_rules
+  | `(tactic| equalM_eval) => `(tactic| equalM_eval [])
+  | `(tactic| equalM_eval [$ls,*]) => `(tactic|
+      simp +decide [EqualM.top.eq_def, EqualM.field.eq_def, EqualM.fields, EqualM.elems,
+        EqualM.entries, Env.eqM?, canEqualM, Env.under, Env.decl?, Ty.isNamed, userEqVal, userEqPtr,
+        firstField, goEq, mapLookup, isByte, bytesEqual, Val.slen, $ls,*])
+
+/-! ## A concrete world with user methods, for the non-vacuity examples of Props/C02c.lean -/
+
+namespace MW
+
+/-!
+```go
+type UE struct { A int64; B []int64 }        // named 0
+func (t *UE) Equal(o *UE) bool               // nil-safe, then t.A == o.A
+type UV struct { A int64; C string }         // named 1
+func (t UV) Equal(o UV) bool                 // t.A == o.A
+type Holder struct { N int64; P *UE; V UE; L []UE; Q *UV; M map[string]*UE }   // named 2
+type PT *UE                                  // named 3: a named pointer type
+```
+-/
+def i64 : Ty := .basic (.int 64 true)
+
+def env : Env := { decls := [
+  { under := .struct (.fcons i64 (.fcons (.slice i64) .fnil)),
+    canEq := false, canEqM := false, eqM := some .ptr, cmpM := some .ptr, hashM := some .ptr },
+  { under := .struct (.fcons i64 (.fcons (.basic .string) .fnil)),
+    canEq := true, canEqM := false, eqM := some .val, hashM := some .val },
+  { under := .struct (.fcons i64 (.fcons (.ptr (.named 0)) (.fcons (.named 0)
+      (.fcons (.slice (.named 0)) (.fcons (.ptr (.named 1))
+      (.fcons (.map (.basic .string) (.ptr (.named 0))) .fnil)))))),
+    canEq := false, canEqM := false },
+  { under := .ptr (.named 0), canEq := false, canEqM := false } ] }
+
+def tUE : Ty := .named 0
+def tUV : Ty := .named 1
+def tHolder : Ty := .named 2
+def tPT : Ty := .named 3
+
+/-- `[]int64{n}` at the given address -/
+def ints (addr : Nat) (n : Int) : Val := .slice addr 0 (.scons (.int n) .snil)
+def ue (a : Int) (b : Val) : Val := .struct (.scons (.int a) (.scons b .snil))
+def uv (a : Int) (c : List Nat) : Val := .struct (.scons (.int a) (.scons (.str c) .snil))
+def holder (n : Int) (p v l q m : Val) : Val :=
+  .struct (.scons (.int n) (.scons p (.scons v (.scons l (.scons q (.scons m .snil))))))
+
+/-- `Holder{1, &UE{1,{1}}, UE{2,{2}}, []UE{{3,nil}}, &UV{4,"a"}, {"k": &UE{5,{5}}}}` -/
+def hx : Val := holder 1 (.ptr 10 (ue 1 (ints 11 1))) (ue 2 (ints 12 2))
+  (.slice 13 0 (.scons (ue 3 .nilv) .snil)) (.ptr 14 (uv 4 [97]))
+  (.map 15 (.scons (.pair (.str [107]) (.ptr 16 (ue 5 (ints 17 5)))) .snil))
+/-- as `hx`, but every component with an Equal method differs in its SECOND field -/
+def hy : Val := holder 1 (.ptr 20 (ue 1 (ints 21 9))) (ue 2 .nilv)
+  (.slice 23 0 (.scons (ue 3 (ints 28 7)) .snil)) (.ptr 24 (uv 4 [98]))
+  (.map 25 (.scons (.pair (.str [107]) (.ptr 26 (ue 5 .nilv))) .snil))
+/-- as `hx`, but `V.A` (the field the method of `UE` looks at) differs -/
+def hz : Val := holder 1 (.ptr 10 (ue 1 (ints 11 1))) (ue 8 (ints 12 2))
+  (.slice 13 0 (.scons (ue 3 .nilv) .snil)) (.ptr 14 (uv 4 [97]))
+  (.map 15 (.scons (.pair (.str [107]) (.ptr 16 (ue 5 (ints 17 5)))) .snil))
+
+theorem env_flagsOk : env.flagsOk = true := by decide
+theorem env_flagsOkM : env.flagsOkM = true := by decide
+theorem env_hasMethods : env.noMethods = false := by decide
+theorem env_supported : SupportedM env tHolder = true := by decide
+theorem env_supportedComp : SupportedCompM env tHolder = true := by decide
+theorem hx_typed : hasType env tHolder hx = true := by
+  goderive_eval [env, tHolder, hx, holder, ue, uv, ints, i64]
+theorem hy_typed : hasType env tHolder hy = true := by
+  goderive_eval [env, tHolder, hy, holder, ue, uv, ints, i64]
+theorem hz_typed : hasType env tHolder hz = true := by
+  goderive_eval [env, tHolder, hz, holder, ue, uv, ints, i64]
+/-- the methods answer "equal" … -/
+theorem hx_hy_structEqM : Spec.structEqM env tHolder hx hy = true := by
+  goderive_evalM [env, tHolder, hx, hy, holder, ue, uv, ints, i64]
+/-- … where plain structural equality says "different" -/
+theorem hx_hy_structEq : Spec.structEq env tHolder hx hy = false := by
+  goderive_eval [env, tHolder, hx, hy, holder, ue, uv, ints, i64]
+theorem hx_hz_structEqM : Spec.structEqM env tHolder hx hz = false := by
+  goderive_evalM [env, tHolder, hx, hz, holder, ue, uv, ints, i64]
+
+end MW
+
 end Goderive
